@@ -52,12 +52,38 @@ def stress_job(rng, tier):
         for sel in ["/d", "/", "/d/sub", "/d/a.txt", "/nothing-here"]:
             data, tls = gen.request_bytes(proto, sel, gplus=gp)
             reqs[key + " " + sel] = {"data": gen.lat(data), "tls": tls}
+    # HTTP clients that differ in what their header block says: a WAP phone (auto-detected) and a desktop browser
+    for sel in ["/d", "/", "/d/sub"]:
+        reqs["wapdetect " + sel] = {"tls": False, "data": "GET %s HTTP/1.0\r\nAccept: text/html, text/vnd.wap.wml\r\n"
+                                    "X-Wap-Profile: \"http://wap.example/phone.xml\"\r\n\r\n" % sel}
+        reqs["browser " + sel] = {"tls": False, "data": "GET %s HTTP/1.0\r\nAccept: text/html\r\nUser-Agent: Mozilla/5.0\r\n\r\n" % sel}
     names = sorted(reqs)
+    # requests for a directory that never reach getdirlist() (asked last in the sequential phase)
+    for sel in ["/d", "/", "/d/sub"]:
+        reqs["http-head " + sel] = {"tls": False, "data": "HEAD %s HTTP/1.0\r\n\r\n" % sel}
+        reqs["https-head " + sel] = {"tls": True, "data": "HEAD %s HTTP/1.0\r\n\r\n" % sel}
+        reqs["gopherplus! " + sel] = {"tls": False, "data": "%s\t!\r\n" % sel}
+    pnames = [n for n in reqs if n not in names]
     dnames = [n for n in names if n.endswith(" /d")]
+    hnames = [n for n in names if n.split(" ")[0] in ("wapdetect", "browser", "http", "wap")]
 
-    def burst(n):
-        return [rng.choice(dnames) if rng.random() < 0.5 else rng.choice(names) for _ in range(n)]
+    def burst(n, rogues=0):
+        b = [rng.choice(dnames) if rng.random() < 0.5 else rng.choice(names + pnames) for _ in range(n)]
+        return {"names": b, "rogues": [rng.choice(["tls-garbage", "tls-abandon", "reset"]) for _ in range(rogues)]}
 
+    def staggered(n):
+        # everybody connects (and is accepted) first; the requests are sent at scattered times
+        b = [rng.choice(hnames) if rng.random() < 0.85 else rng.choice(names + pnames) for _ in range(n)]
+        # most of them are slow writers: the first byte(s) of the request at once, the rest later
+        return {"names": b, "send_delays": [round(rng.random() * 0.15, 4) for _ in range(n)],
+                "split_at": [rng.choice([0, 1, 1, 1, 3]) for _ in range(n)], "rogues": ["reset", "tls-abandon"]}
+
+    # deterministic interleavings of two clients (any protocols; half of them HTTP-family with different header blocks)
+    pairs = []
+    for _ in range(12 if tier == "thorough" else 6):
+        pairs.append([rng.choice(hnames), rng.choice(hnames)])
+        pairs.append([rng.choice(names + pnames), rng.choice(names + pnames)])
+    pairs += [["wapdetect /d", "browser /d"], ["browser /", "wapdetect /"], ["wapdetect /d/sub", "http /d/sub"]]
     sizes = [8, 32, 32] + ([64, 64] if tier == "thorough" else [])
     # start-up bursts against a perturbed threading server: staggered arrivals, listings first
     lnames = [n for n in names if n.split(" ", 1)[1] in ("/d", "/", "/d/sub")]
@@ -66,8 +92,11 @@ def stress_job(rng, tier):
         pn = [rng.choice(lnames) if rng.random() < 0.8 else rng.choice(names) for _ in range(12)]
         offs = [round(i * spread, 4) for i in range(12)] if spread else sorted(round(rng.random() * 0.04, 4) for _ in range(12))
         perturbed.append({"nap": nap, "names": pn, "offsets": offs, "after": ["gopher /d", "http /d", "gopherplus$ /", "gemini /d/sub"]})
-    return {"perturbed": perturbed,"op": "c14_stress", "tree": tree, "servertypes": ["ThreadingTCPServer", "ForkingTCPServer"],
-            "requests": reqs, "bursts": [burst(n) for n in sizes], "probe": "gopher /d", "cold_each_burst": True}
+    seqs = [["http-head /d", "gopher /d", "http /d"], ["gopherplus! /", "gopherplus$ /", "wap /"],
+            ["https-head /d/sub", "gemini /d/sub"]]
+    return {"perturbed": perturbed, "pairs": pairs, "probe_sequences": seqs,"op": "c14_stress", "tree": tree, "servertypes": ["ThreadingTCPServer", "ForkingTCPServer"],
+            "requests": reqs, "bursts": [burst(sizes[0], 3), burst(sizes[1], 4), staggered(32), staggered(32)] + [burst(n, 2) for n in sizes[2:]],
+            "probe": ["gopher /d", "http /", "gopherplus$ /d/sub", "wap /d"], "cold_each_burst": True}
 
 
 def lazy_job(rng):
@@ -86,6 +115,29 @@ def lazy_job(rng):
     pairs = [["gopher /d", "gopher /d"], ["gopherplus$ /d", "http /d"], [rng.choice(lst), rng.choice(lst)],
              [rng.choice(sorted(reqs)), rng.choice(lst)]]
     return {"op": "c14_lazy", "tree": tree, "requests": reqs, "pairs": pairs, "max_points": 400}
+
+
+def probe_list_job(rng):
+    tree = []
+    for dn in ("p0", "p1", "p2"):
+        tree += [{"path": dn, "kind": "dir"}, {"path": dn + "/a.txt", "data": "alpha\n", "mtime": c10.T0},
+                 {"path": dn + "/b.html", "data": "<html><title>Bee</title></html>\n", "mtime": c10.T0},
+                 {"path": dn + "/sub", "kind": "dir", "mtime": c10.T0}]
+    reqs = {}
+    listers = ["gopher", "http", "gopherplus$", "gemini", "wap"]
+    probes = ["http-head", "https-head", "gopherplus!"]
+    for dn in ("p0", "p1", "p2"):
+        sel = "/" + dn
+        for key, proto, gp in c10.PROTOKEYS:
+            if key in listers:
+                data, tls = gen.request_bytes(proto, sel, gplus=gp)
+                reqs[key + " " + sel] = {"data": gen.lat(data), "tls": tls}
+        reqs["http-head " + sel] = {"tls": False, "data": "HEAD %s HTTP/1.0\r\n\r\n" % sel}
+        reqs["https-head " + sel] = {"tls": True, "data": "HEAD %s HTTP/1.0\r\n\r\n" % sel}
+        reqs["gopherplus! " + sel] = {"tls": False, "data": "%s\t!\r\n" % sel}
+    combos = [[p, rng.choice(listers)] for p in probes]
+    return {"op": "c14_probe_list", "tree": tree, "requests": reqs, "combos": combos,
+            "dirs": [["p0", "none"], ["p1", "expired"], ["p2", "fresh"]], "limit_s": 4}
 
 
 def classify_empty(job, res, i):
@@ -127,13 +179,16 @@ def run(tier):
     for r in res:
         if not r["ok"]:
             raise RuntimeError(r["err"] + "\n" + r.get("tb", ""))
-    cases_rep = [coq_case(j, r["res"], True) for j, r in zip(jobs, res)]
-    cases_pin = [coq_case(j, r["res"], False) for j, r in zip(jobs, res)]
+    # schedules the code does not admit (a request waited for a paused one) are not compared with the lock-free model
+    kjobs = [(j, r) for j, r in zip(jobs, res) if not r["res"].get("blocked")]
+    cases_rep = [coq_case(j, r["res"], True) for j, r in kjobs]
+    cases_pin = [coq_case(j, r["res"], False) for j, r in kjobs]
     mism, err, nsh = coq_eval("C14", "k_rep", "Lib.Str Corr.K14", "chk_sched", cases_rep, shard=40)
     mism_p, err_p, _ = coq_eval("C14", "k_pin", "Lib.Str Corr.K14", "chk_sched", cases_pin, shard=40)
     behaves = "repaired" if not mism and not err else ("pinned" if not mism_p and not err_p else "neither")
     stats = {"schedules": len(jobs), "requests": 0, "grants": 0, "by_initial_file": {}, "empty_replies": 0,
-             "overlapping_writers": 0, "readers_meeting_truncated_file": 0}
+             "overlapping_writers": 0, "readers_meeting_truncated_file": 0,
+             "schedules_not_admitted_by_the_code": sum(1 for r in res if r["res"].get("blocked"))}
     for j, r in zip(jobs, res):
         d = r["res"]
         stats["requests"] += j["n"]
@@ -161,7 +216,11 @@ def run(tier):
             if o == want:
                 continue
             found = True
-            if o == 1000:
+            if o == 3000:
+                report({"what": "request %d of %d never finishes, although every request was allowed to run freely after the "
+                                "schedule" % (i, j["n"]), "initial_cache_file": kn, "schedule": j["sched"],
+                        "gate_trace": d["gate_trace"], "requests": d["detail"], "job": j}, "sched-hang")
+            elif o == 1000:
                 stats["empty_replies"] += 1
                 why = classify_empty(j, d, i)
                 report({"what": "request %d of %d got an EMPTY reply under this schedule (%s); alone it gets the listing"
@@ -206,6 +265,23 @@ def run(tier):
                         "from the one it gets alone" % (b["preempted_request"], b["before_line"], b["site"], b["which"],
                                                         b["wrong_answer_of"]),
                 "detail": b, "all": ld["bad"][:6], "job": lj}, "lazy-init-preempt:" + b["site"])
+    # ---------------- deterministic: non-listing request, then listings of the same directory ----------------
+    pj = probe_list_job(rng)
+    pr = impl_run([pj])[0]
+    if not pr["ok"]:
+        raise RuntimeError(pr["err"] + "\n" + pr.get("tb", ""))
+    pd = pr["res"]
+    chk.count(("probe-list", pd["trials"]), nontrivial=True, n=3 * pd["trials"])
+    cov["probe_then_list"] = {"trials": pd["trials"], "bad": pd["nbad"],
+                              "note": "HTTP HEAD (plain, TLS) and Gopher+ `!` on a directory whose cache file is absent / expired / "
+                                      "fresh, followed by two listings of that directory, each request in its own thread with a "
+                                      "time limit; answers compared with the cacheless ones"}
+    for b in pd["bad"][:1]:
+        found = True
+        report({"what": "%s, then %s (directory cache %s): the %s %s" % (
+            b["probe"], b["then"], b["directory_cache"], b["failing_step"],
+            "never finishes" if b["hang"] else "differs from the answer the request gets alone"),
+                "detail": b, "all": pd["bad"], "job": pj}, "probe-then-list:" + ("hang" if b["hang"] else "wrong-answer"))
     # ---------------- stress: real servers ----------------
     sj = stress_job(rng, tier)
     sr = impl_run([sj])[0]
@@ -213,18 +289,31 @@ def run(tier):
         raise RuntimeError(sr["err"] + "\n" + sr.get("tb", ""))
     stress = {}
     for st, d in sr["res"].items():
+        if d.get("aborted"):
+            found = True
+            report({"what": "%s: %s" % (st, d["aborted"]), "mismatches": [{k: v for k, v in x.items() if k != "burst"}
+                                                                          for x in d["mismatches"][:6]], "job": sj},
+                   "sequential-no-response:" + st)
+            stress[st] = {"aborted": d["aborted"]}
+            continue
         nreq = sum(b["n"] for b in d["bursts"])
         chk.count(("stress", st, nreq), nontrivial=True, n=nreq)
         nreq_p = sum(b["n"] for b in d.get("perturbed", []))
         if nreq_p:
             chk.count(("stress-perturbed", st, nreq_p), nontrivial=True, n=nreq_p)
-        stress[st] = {"server": d["server"], "bursts": d["bursts"], "perturbed_startup_bursts": d.get("perturbed", []),
+        stress[st] = {"server": d["server"], "bursts": d["bursts"], "interleaved_pairs": d.get("pairs"), "perturbed_startup_bursts": d.get("perturbed", []),
                       "after": d["after"],
                       "sequential_requests": 2 * len(sj["requests"]), "burst_requests": nreq,
                       "mismatches": len(d["mismatches"]), "server_log_exceptions": d["server_log_exceptions"][:4]}
         seen = set()
         for m in d["mismatches"]:
             kind = "sequential-unstable" if m["phase"] == "sequential" else ("burst-empty-reply" if m.get("empty") else "burst-mismatch")
+            if m["phase"].startswith("probe sequence"):
+                kind = "probe-sequence-" + ("no-response" if m.get("empty") else "mismatch")
+            if m["phase"].startswith("interleaved pair"):
+                kind = "interleaved-pair-" + ("no-response" if m.get("empty") else "mismatch")
+            if m.get("error") and "timed out" in str(m["error"]):
+                kind = kind.split("-")[0] + "-no-response"
             if "perturbed" in m["phase"]:
                 kind = "startup-" + kind
             tag = "%s:%s" % (kind, st)
@@ -243,6 +332,14 @@ def run(tier):
             found = True
             chk.violation({"what": "%s does not answer correctly after the bursts" % st, "after": a, "job": sj},
                           tag="server-dead:" + st)
+        lb = d.get("left_behind") or {}
+        stress[st]["left_behind_after_shutdown"] = lb
+        if lb.get("survivors") or lb.get("port_still_accepting"):
+            found = True
+            chk.violation({"what": "%s: after the master was shut down %d process(es) of the server are still alive%s"
+                                   % (st, lb.get("survivors", 0), " and the port still accepts connections"
+                                      if lb.get("port_still_accepting") else ""), "after": a, "left_behind": lb, "job": sj},
+                          tag="rogue-process:" + st)
         if a["stat"]["active_children"] or a["child_processes_running"] or a["zombies"] or a["stat"]["threads"] > 2:
             found = True
             chk.violation({"what": "%s: workers not reaped after the bursts" % st, "after": a, "job": sj},
@@ -253,7 +350,12 @@ def run(tier):
                              "one ephemeral port), bursts of N simultaneous clients released by a barrier (plaintext and TLS, "
                              "half of the TLS clients handshake before the barrier, half after), half of the requests listing "
                              "the same directory with a cold cache, the first burst being the very first requests after "
-                             "start-up; schedules are whatever the OS produced.  Perturbed leg (threading server): a freshly started "
+                             "start-up; every burst is joined by clients that never send a request (TLS first byte + garbage, abandoned "
+                             "handshake, reset before the first byte); one burst connects everybody first and sends the requests at "
+                             "scattered times (half of them the first byte at once and the rest later), with WAP-detected and desktop HTTP clients mixed; requests include HTTP HEAD and "
+                             "Gopher+ `!` on directories; deterministic two-client interleavings (one client has sent its first byte, "
+                             "another is served completely, the first sends the rest); 10 s client time limit; afterwards: liveness probes, reaping, and after "
+                             "shutdown no surviving process and a closed port; schedules are whatever the OS produced.  Perturbed leg (threading server): a freshly started "
                              "server in which re.compile, eval and ConfigParser.get sleep a few ms the first 4 times they are called "
                              "with a given argument from a worker thread and sys.setswitchinterval is 10 us (installed by the "
                              "harness's launcher, nothing in /repo), first burst with staggered client start times, then the "
